@@ -724,3 +724,47 @@ impl CpcSketch {
         self.num_coupons
     }
 }
+
+#[cfg(feature = "verif-hooks")]
+impl CpcSketch {
+    /// Verification hook: feed a raw `(row << 6) | col` pair exactly as `update` would after
+    /// hashing.
+    pub fn verif_row_col_update(&mut self, row_col: u32) {
+        self.row_col_update(row_col);
+    }
+
+    /// Verification hook: the k x 64 bit matrix the sketch currently represents.
+    pub fn verif_bit_matrix(&self) -> Vec<u64> {
+        self.build_bit_matrix()
+    }
+
+    /// Verification hook: dump the internal state as plain data.
+    pub fn verif_state(&self) -> crate::verif::CpcState {
+        let (table_items, table_lg_size, table_num_items) = match &self.surprising_value_table {
+            Some(table) => (
+                table
+                    .slots()
+                    .iter()
+                    .copied()
+                    .filter(|&s| s != u32::MAX)
+                    .collect(),
+                table.verif_lg_size(),
+                table.verif_num_items(),
+            ),
+            None => (vec![], 0, 0),
+        };
+        crate::verif::CpcState {
+            lg_k: self.lg_k,
+            num_coupons: self.num_coupons,
+            window_offset: self.window_offset,
+            first_interesting_column: self.first_interesting_column,
+            sliding_window: self.sliding_window.clone(),
+            table_items,
+            table_lg_size,
+            table_num_items,
+            merge_flag: self.merge_flag,
+            kxp: self.kxp,
+            hip_est_accum: self.hip_est_accum,
+        }
+    }
+}
